@@ -128,6 +128,29 @@ def run_compare_meta(chk, spec):
 	comparisons such as date vector vs ISO string that Python itself does not define)"""
 	a, mask, other, opname = spec["a"], spec["mask_bits"], spec["other"], spec["opname"]
 	op = CMP_OPS[opname]
+	om = spec.get("other_mask")
+	if om is not None:
+		# None in the OTHER vector as well: False there too
+		other_m = masked(other, om)
+		if all(x is None for x in other_m) or all(x is None for x in masked(a, mask)):
+			chk.skip("compare-meta-all-none")
+			return
+		base = call(lambda: op(Vector(list(a)), Vector(list(other))))
+		if not base.ok:
+			chk.skip("compare-meta-base-raises")
+			return
+		o = call(lambda: op(Vector(masked(a, mask)), Vector(other_m)))
+		chk.judged("compare-none", ("cmpmeta2", opname, spec["kind"], mask_sig(mask), mask_sig(om)))
+		tag = f"{opname}/{spec['kind']}-vs-vector-with-none"
+		if not o.ok:
+			chk.fail("a None makes the comparison False instead of making it fail", f"compare-none/raises-meta/{tag}/{type(o.exc).__name__}",
+				f"{spec!r}: without None -> {list(base.value)}, with None at {mask_sig(mask)} / {mask_sig(om)} (other operand) serif raised {o!r}")
+			return
+		got = list(o.value._underlying)
+		exp = [False if (m or m2) else bv for bv, m, m2 in zip(base.value._underlying, mask, om)]
+		if got != exp:
+			chk.fail("comparison is False at None and unchanged elsewhere", f"compare-none/meta-value/{tag}", f"{spec!r}: {got} vs {exp}")
+		return
 	full = Vector(list(a))
 	base = call(lambda: op(full, other if not isinstance(other, list) else Vector(list(other))))
 	if not base.ok:
@@ -204,6 +227,14 @@ def run_reduce(chk, spec):
 	if v is None:
 		chk.skip("reduce-build-refused")
 		return
+	if spec.get("presort"):
+		# the vector comes straight out of sort_by(): the reduction still skips None wherever the None block was put
+		sv = call(v.sort_by, reverse=spec["presort"][0], na_last=spec["presort"][1])
+		if not sv.ok or not isinstance(sv.value, Vector) or len(sv.value) != len(vals):
+			chk.skip("reduce-presort-refused")
+			return
+		v = sv.value
+		vals = list(v._underlying)
 	o = call(getattr(v, red))
 	chk.judged("reduce", ("reduce", red, spec.get("kind"), spec.get("mask")))
 	if len(v) != len(vals):
@@ -255,6 +286,25 @@ def build_vector(chk, spec):
 	"""the vector under test: built directly, or built None-free and given its None values by writes / concatenation"""
 	vals = spec["values"]
 	how = spec.get("build", "direct")
+	if how == "was-none":
+		# None-free now, but a None was stored and overwritten: the dtype still says nullable
+		v = Vector(list(vals), name=spec.get("name"))
+		if not vals or any(x is None for x in vals):
+			return v
+		o = call(v.__setitem__, 0, None)
+		o2 = call(v.__setitem__, 0, vals[0])
+		if not (o.ok and o2.ok) or not M.same_list(list(v._underlying), vals):
+			chk.counters["build_was_none_refused"] += 1
+			return None
+		return v
+	if how == "slice-of-nullable":
+		if not vals or any(x is None for x in vals):
+			return Vector(list(vals), name=spec.get("name"))
+		o = call(lambda: Vector(list(vals) + [None], name=spec.get("name"))[0:len(vals)])
+		if not o.ok or not M.same_list(list(o.value._underlying), vals):
+			chk.counters["build_slice_of_nullable_refused"] += 1
+			return None
+		return o.value
 	if how == "direct" or not any(x is None for x in vals) or all(x is None for x in vals):
 		return Vector(list(vals), name=spec.get("name"))
 	filler = next(x for x in vals if x is not None)
@@ -428,9 +478,16 @@ def run(chk):
 						others += ["2020-06-01", V.DT0, [x.isoformat() for x in base], [V.datetime(x.year, x.month, x.day, 6, 0) for x in base]]
 					for other in others:
 						chk.case("compare_meta", {"a": base, "mask_bits": list(mask), "other": other, "opname": opname, "kind": kind}, "compare-meta")
+						if isinstance(other, list) and n > 1:
+							om = [rng.random() < 0.4 for _ in range(n)]
+							if not any(om):
+								om[rng.randrange(n)] = True
+							chk.case("compare_meta", {"a": base, "mask_bits": list(mask), "other": other, "other_mask": om, "opname": opname, "kind": kind}, "compare-meta-other-none")
 			# reductions
 			for red in ("sum", "mean", "min", "max", "stdev", "any", "all"):
 				chk.case("reduce", {"values": a, "red": red, "kind": kind, "mask": ms}, "reduce")
+				if any(mask) and not all(mask) and red in ("sum", "mean", "min", "max") and kind not in ("complex",):
+					chk.case("reduce", {"values": a, "red": red, "kind": kind, "mask": ms, "presort": [(False, False), (True, False), (False, True), (True, True)][(idx + len(red)) % 4]}, "reduce-presorted")
 				if any(mask) and not all(mask) and red in ("sum", "mean", "max", "all"):
 					chk.case("reduce", {"values": a, "red": red, "kind": kind, "mask": ms, "build": ["setitem", "lshift-vector", "slice-assign"][idx % 3]}, "reduce-built")
 			# isna / dropna / fillna
@@ -442,8 +499,11 @@ def run(chk):
 			for fc, fill in fills:
 				if all(mask):
 					fc = "into-all-none" if fill is not None else "none"
-				for build in ("direct", "setitem", "slice-assign", "lshift", "lshift-vector"):
-					if build != "direct" and (not any(mask) or all(mask)):
+				for build in ("direct", "setitem", "slice-assign", "lshift", "lshift-vector", "was-none", "slice-of-nullable"):
+					if build in ("was-none", "slice-of-nullable"):
+						if any(mask):
+							continue
+					elif build != "direct" and (not any(mask) or all(mask)):
 						continue
 					chk.case("na", {"values": a, "fill": fill, "fillclass": fc, "kind": kind, "mask": ms, "name": rng.choice([None, "nm"]) if not build.startswith("lshift") else None,
 						"build": build}, "na-triple-" + build)
@@ -457,6 +517,17 @@ def run(chk):
 			chk.case("reduce", {"values": vals, "red": red, "kind": kind, "mask": mask_sig([x is None for x in vals])}, "reduce-falsy")
 		chk.case("na", {"values": vals, "fill": rng.choice(dom), "fillclass": "same" if any(x is not None for x in vals) else "into-all-none",
 			"kind": kind, "mask": mask_sig([x is None for x in vals]), "name": None}, "na-falsy")
+	# NaN is a value, not a missing value: only None is marked / dropped / filled
+	nan = float("nan")
+	for _ in range(60 if chk.quick() else 400):
+		n = rng.choice([1, 2, 3, 5])
+		vals = [rng.choice([None, nan, 1.5, -2.0, float("inf")]) for _ in range(n)]
+		if not any(isinstance(x, float) and x != x for x in vals):
+			vals[rng.randrange(n)] = nan
+		if all(x is None for x in vals):
+			continue
+		for build in ("direct", "setitem") if any(x is None for x in vals) else ("direct",):
+			chk.case("na", {"values": vals, "fill": rng.choice([0.0, 9.5]), "fillclass": "same", "kind": "float-nan", "mask": mask_sig([x is None for x in vals]), "name": None, "build": build}, "na-nan")
 	# per-group aggregates
 	for _ in range(150 if chk.quick() else 1000):
 		n = rng.choice([1, 2, 3, 5, 8])
